@@ -26,6 +26,7 @@ def parse(text):
             if not lines:
                 continue
         pos += 1
+        blk = "\n".join(lines)
         if lines[0].startswith("rule "):
             name = lines[0][5:]
             vs = {}
